@@ -137,15 +137,45 @@ def generate(streams: core.Streams, tier: str) -> dict:
                     if not transformation[k2]:
                         del transformation[k2]
     pvars = {"admins": ["root", "adm*"], "servers": "srv1", "num_var": [1, 2]} if gen.chance(s, 0.7) else {}
-    return {"kind": kind, "documents": docs, "target": target, "transformation": transformation, "vars": pvars}
+    # drawn last: less common but loadable document features of the object that is written
+    t = docs[target]
+    if "logsource" in t and gen.chance(w, 0.1):
+        t["logsource"]["vendor_stage"] = "prod"  # a custom log source attribute
+    if gen.chance(w, 0.1):
+        # a YAML timestamp (the loader accepts datetime objects); '@DT@' is turned into one when loading
+        t[gen.pick(w, ["date", "modified"])] = "@DT@2023-05-06 10:00:00"
+    if "detection" in t and gen.chance(w, 0.06):
+        nm = next(k for k in t["detection"] if k != "condition")
+        if isinstance(t["detection"][nm], dict):
+            t["detection"][nm]["EmptyList"] = []  # an empty value list
+    return {"kind": kind, "documents": docs, "target": target, "transformation": transformation, "vars": pvars,
+            "with_source": gen.chance(s, 0.15)}
 
 
 # ------------------------------------------------------------------------------------------------
 
 
-def _load(sc: dict, docs: list[dict]) -> Any:
+def _dt(x: Any) -> Any:
+    import datetime
+
+    if isinstance(x, str) and x.startswith("@DT@"):
+        return datetime.datetime.strptime(x[4:], "%Y-%m-%d %H:%M:%S")
+    if isinstance(x, dict):
+        return {k: _dt(v) for k, v in x.items()}
+    if isinstance(x, list):
+        return [_dt(v) for v in x]
+    return x
+
+
+def _load(sc: dict, docs: list[dict], first: bool = False) -> Any:
+    from sigma.exceptions import SigmaRuleLocation
     from sigsim import world
 
+    docs = [_dt(d) for d in docs]
+    if first and sc.get("with_source"):
+        # the way load_ruleset loads: every rule knows the file it came from (the written dict is loaded
+        # again without one: what a dict form says must not depend on where the rule was read)
+        return world.load_collection(docs, source=SigmaRuleLocation("/sigsim/rules/r.yml"))
     return world.load_collection(docs)
 
 
@@ -167,7 +197,7 @@ def execute(scenario: dict) -> dict:
     violation = None
     outcome = "?"
     try:
-        coll = _load(sc, sc["documents"])
+        coll = _load(sc, sc["documents"], first=True)
         if sc["kind"] == "filter":
             fcoll = world.load_collection(sc["documents"], collect_filters=True)
     except Exception as e:  # not loadable: outside the property
